@@ -157,8 +157,15 @@ factorisation into two non-trivial factors in ascending order.  (Termination is 
 not claimed.)  For a product of two primes the result is therefore exactly that pair, ascending:
 `decompose_semiprime` below (Mathlib). -/
 theorem decompose_sound (n : Nat) (tape : List Nat) (p q : Nat)
-    (h : decomposePQ n tape = .ok (p, q)) : p * q = n ∧ 1 < p ∧ p ≤ q :=
-  pqLoop_sound pq_constants.2.2.2.2.2 n tape 0 0 p q (Or.inl (by omega)) h
+    (h : decomposePQ n tape = .ok (p, q)) : p * q = n ∧ 1 < p ∧ p ≤ q := by
+  unfold decomposePQ at h
+  split at h
+  · rename_i p' q' k hk
+    injection h with h
+    injection h with h1 h2
+    subst h1 h2
+    exact pqLoop_sound pq_constants.2.2.2.2.2 n tape 0 0 p' q' k (Or.inl (by omega)) hk
+  · cases h
 
 /-- The inner binary-multiplication loop of `DecomposePQ` is Pollard's polynomial step
 `x ↦ (x² + v) mod n` (for `x, v < n`, which the outer loop guarantees). -/
